@@ -2,47 +2,53 @@
 #![allow(static_mut_refs)]
 
 mod mon;
+mod ops;
+mod out;
+mod props;
 mod rng;
 mod sched;
 mod simk;
-
-use std::future::Future;
-use std::pin::Pin;
-use std::task::{Context, Poll};
-use std::time::Duration;
+mod world;
 
 fn main() {
+    let argv: Vec<String> = std::env::args().collect();
+    if argv.len() < 2 {
+        eprintln!("usage: harness <scenario> [--seed N] [--iters N] [--start N] [--tier quick|thorough] [--set k=v]...");
+        std::process::exit(2);
+    }
+    let name = argv[1].clone();
+    let mut args = props::Args { seed: 1, iters: 100, start: 0, tier: "quick".into(), params: Vec::new() };
+    let mut i = 2;
+    while i < argv.len() {
+        let v = argv.get(i + 1).cloned().unwrap_or_default();
+        match argv[i].as_str() {
+            "--seed" => args.seed = v.parse().expect("seed"),
+            "--iters" => args.iters = v.parse().expect("iters"),
+            "--start" => args.start = v.parse().expect("start"),
+            "--tier" => args.tier = v,
+            "--set" => {
+                let (k, val) = v.split_once('=').expect("k=v");
+                args.params.push((k.to_string(), val.to_string()));
+            }
+            other => {
+                eprintln!("unknown argument {other}");
+                std::process::exit(2);
+            }
+        }
+        i += 2;
+    }
     mon::logsink::install();
+    props::install_panic_hook();
     simk::install();
-    simk::reset(1);
-    let mut ring = a10::Ring::config().with_submission_queue_size(4).build().expect("ring");
-    let sq = ring.sq();
-    let fd = mon::fds::issue("test");
-    let afd = unsafe { a10::AsyncFd::from_raw_fd(fd, sq.clone()) };
-    let (waker, ws) = mon::waker::new_waker();
-    let mut cx = Context::from_waker(&waker);
-    let mut fut = Box::pin(afd.read(Vec::with_capacity(100)));
-    assert!(matches!(fut.as_mut().poll(&mut cx), Poll::Pending));
-    ring.poll(Some(Duration::ZERO)).unwrap();
-    let ids = simk::k().inflight();
-    println!("inflight {:?}", ids);
-    {
-        let mut k = simk::k();
-        simk::effects::complete(&mut k, ids[0], 10, false);
+    // A panic anywhere is reported with the scenario position by the driver
+    // (non-zero exit without a summary line).
+    match props::run(&name, &args) {
+        Some(rep) => {
+            rep.print();
+        }
+        None => {
+            eprintln!("unknown scenario {name}");
+            std::process::exit(2);
+        }
     }
-    ring.poll(Some(Duration::ZERO)).unwrap();
-    println!("wakes {}", ws.wakes());
-    match fut.as_mut().poll(&mut cx) {
-        Poll::Ready(Ok(buf)) => println!("read {:?}", buf),
-        other => println!("unexpected {:?}", other.map(|r| r.map(|b| b.len()))),
-    }
-    drop(fut);
-    drop(afd);
-    drop(ring);
-    drop(sq);
-    let mut k = simk::k();
-    k.sync_fd_events();
-    println!("viol {:?} counters {:?}", k.take_violations(), k.counters);
-    println!("open fds {:?} log {:?}", mon::fds::open_fds(), mon::logsink::take());
-    println!("maps {:?}", k.mapping_leaks());
 }
